@@ -391,6 +391,89 @@ let mut vx_i: usize = 0;
 //@end
 }
 
+
+// ================= tc::Config (src/tc/mod.rs): which passes and rules a type checker runs =================
+// A-CALLEE: InferenceRules is opaque here (its `infer` and `default` are under contract in unit rules); `default()` promises nothing.
+#[verifier::external_body]
+pub struct InferenceRules { _opaque: u8 }
+impl Default for InferenceRules {
+    #[verifier::external_body]
+    fn default() -> (r: InferenceRules) { unimplemented!() }
+}
+pub uninterp spec fn default_rules() -> InferenceRules;
+
+//@extract file=src/tc/mod.rs path="struct Config" kind=type
+//@end
+//@extract file=src/tc/mod.rs path="impl Config" kind=header
+//@end
+// R-MUTSELF (desugaring of a `mut self` builder, as in unit vm_state)
+//@extract file=src/tc/mod.rs path="impl Config|fn with_lifting_passes" props=C05,C01 id=tc::Config::with_lifting_passes
+//@ret r
+//@rw R-MUTSELF
+//@old
+mut self,
+//@new
+self,
+//@rw R-MUTSELF count=any optional
+//@old
+self.$1 = $2;
+//@new
+vx_self.$1 = $2;
+//@rw R-MUTSELF
+//@old
+;
+        self
+    }
+//@new
+;
+        vx_self
+    }
+//@proof entry
+        let mut vx_self = self;   // R-MUTSELF, first half
+//@spec
+        ensures
+            r.lifting_passes == value,                                  //@ob C05.lift_passes.config.with_lifting_passes.runs_the_given_passes
+            r.inference_rules == self.inference_rules,                  //@ob C05.lift_passes.config.with_lifting_passes.rules_untouched
+//@end
+//@extract file=src/tc/mod.rs path="impl Config|fn with_inference_rules" props=C05,C01 id=tc::Config::with_inference_rules
+//@ret r
+//@rw R-MUTSELF
+//@old
+mut self,
+//@new
+self,
+//@rw R-MUTSELF count=any optional
+//@old
+self.$1 = $2;
+//@new
+vx_self.$1 = $2;
+//@rw R-MUTSELF
+//@old
+;
+        self
+    }
+//@new
+;
+        vx_self
+    }
+//@proof entry
+        let mut vx_self = self;   // R-MUTSELF, first half
+//@spec
+        ensures
+            r.inference_rules == value,                                 //@ob C05.lift_passes.config.with_inference_rules.uses_the_given_rules
+            r.lifting_passes == self.lifting_passes,                    //@ob C05.lift_passes.config.with_inference_rules.passes_untouched
+//@end
+}
+//@extract file=src/tc/mod.rs path="impl Default for Config" kind=header
+//@end
+//@extract file=src/tc/mod.rs path="impl Default for Config|fn default" props=C05,C12,C01 id=tc::Config::default
+//@ret r
+//@spec
+        ensures
+            kinds(r.lifting_passes.list()) == default_order(),          //@ob C05.lift_passes.config.default.runs_the_nine_documented_passes_in_order C12.lift_passes.config.default.runs_the_nine_documented_passes_in_order
+//@end
+}
+
 //@dropped LiftingPasses::add: `self.passes.iter().map(type_id).collect()`, `pass.type_id()`, `ids.contains(..)`, `Box::new(pass)` + unsizing are R-CALL stand-ins (TypeId modelled as an injective image of the ghost pass kind); the control flow (early return / push at the end) is the repository's
 //@dropped LiftingPasses::run: renaming the loop variable or changing the loop form loses the R-FOREACH anchor (status undecided, never a false ok); the `mut value` parameter is re-bound (R-SIG)
 //@dropped LiftingPasses::get / get_mut (iterator find + downcast through Any): not extracted
